@@ -435,6 +435,20 @@ fn shard_pool_scenarios(out: &mut NdjsonWriter, seed: u64, n: u64) {
             2 => batches.swap(0, 4),
             _ => { batches.swap(0, 3); batches.swap(1, 2); }
         }
+        // tip updates while every pool's latest known shard ends ABOVE the block after the highest scanned one (the
+        // last-shard ChainTip entry and the entry that continues from the highest scanned block are apart):
+        //  - `early_tip`: only the two lowest blocks are scanned, then the tip is reported again (chain still short)
+        //  - `lowscan`: only those two are scanned before the chain grows past the pruning depth (Verify on the
+        //    lookahead, ChainTip on the last shard, the gap between them Historic)
+        let lowscan = i % 4 == 3;
+        let early_tip = i % 4 == 1;
+        if early_tip {
+            r.scan(old_notes_at - 1, 1);
+            r.tip_top();
+        }
+        if lowscan {
+            batches = vec![(old_notes_at - 1, 2)];
+        }
         for (k, (from, len)) in batches.iter().enumerate() {
             if k >= 5 && rng.gen_bool(0.5) { continue; }
             r.scan(*from, *len);
@@ -446,6 +460,11 @@ fn shard_pool_scenarios(out: &mut NdjsonWriter, seed: u64, n: u64) {
             if r.aborted { break; }
         }
         if r.aborted { continue; }
+        if lowscan {
+            if let Some(p) = withhold {
+                for (pool, index, root, h) in roots.iter().copied() { if pool == p { r.put_priors(pool, index, &[(root, h)]); } }
+            }
+        }
         // the chain grows past the pruning depth: the next tip update finds the highest scanned block at a chosen
         // distance from the stable height (tip - 100): Verify with the lookahead cut short / exactly 10 / the empty
         // range when they coincide / ChainTip one above; the shard metadata puts ChainTip on the last shard
